@@ -95,6 +95,9 @@ pub struct Board {
     /// armed: when the next memory-write-start command byte (0x2C with DC low) has been delivered, switch to counting
     /// mode with this expected pixel pattern (display-level fills of more than 2^32 bytes)
     pub arm_on_ramwr: Option<(usize, [u8; 3])>,
+    /// just armed: the next transaction, if it carries no bytes, is the (empty) parameter write of the
+    /// memory-write-start command and not part of the pixel burst
+    pub armed_skip_empty: bool,
 }
 
 pub type Bd = Rc<RefCell<Board>>;
@@ -121,6 +124,7 @@ impl Board {
             spi_expect: None,
             spi_mismatch: None,
             arm_on_ramwr: None,
+            armed_skip_empty: false,
         }))
     }
 
@@ -249,6 +253,13 @@ impl SpiDevice<u8> for VSpi {
         let (op, f) = b.next_op(100);
         let ok = f.is_none();
         b.spi_txns += 1;
+        if b.armed_skip_empty {
+            b.armed_skip_empty = false;
+            let total: usize = operations.iter().map(|o| if let Operation::Write(w) = o { w.len() } else { 0 }).sum();
+            if total == 0 {
+                b.spi_txns -= 1;
+            }
+        }
         let dc = b.levels[PIN_DC as usize];
         if operations.is_empty() && !b.count_only {
             b.evs.push(Ev::SpiEmptyTxn { ok });
@@ -266,6 +277,7 @@ impl SpiDevice<u8> for VSpi {
                         b.spi_bytes = 0;
                         b.spi_txns = 0;
                         b.spi_mismatch = None;
+                        b.armed_skip_empty = true;
                         first = false;
                         continue;
                     }
